@@ -66,8 +66,9 @@ def entries(prop=None, seeds=True):
             meta = os.path.join(sd, name, 'meta.json')
             if not os.path.exists(meta) or 'obsolete' in open(meta).read()[:400].lower() and name == 'C15-a':
                 continue
+            exp = json.load(open(meta)).get('selftest_expect', 'refuted')      # 'exit 2': the change is outside the subset (undecided), recorded as such
             for p in SEED_PROPS.get(name, [name.split('-')[0]]):
-                out.append(dict(id='seed:' + name, property=p, patch=os.path.join(sd, name, 'patch.diff'), expect='refuted', note='independently written seeded change'))
+                out.append(dict(id='seed:' + name, property=p, patch=os.path.join(sd, name, 'patch.diff'), expect=exp, note='independently written seeded change'))
     return [e for e in out if prop is None or e['property'] == prop]
 
 
